@@ -52,6 +52,9 @@ type Exec struct {
 	funcVals  map[string]*ssa.Function
 	ghostFields map[string]*GhostField
 	fnInfos   map[string]*fnInfo
+	immutableFields map[string]bool // "pkgpath.T.f"
+	immutableHeaps  map[string]bool // heap names excluded from wholesale havoc
+	immutableViolations map[string]string
 	definingGhost map[string]bool
 	axiomNames []string
 	lemmaErrs  []string
